@@ -1,6 +1,7 @@
 package main
 
 import (
+	"regexp"
 	"strings"
 
 	"golang.org/x/tools/go/ssa"
@@ -16,6 +17,7 @@ func checkC11(c *Ctx) {
 	c.NotDec = "collision resistance of SHA-256 and unambiguity of the concatenated key encoding; LRU order as such (irrelevant to verdicts given the clauses above)."
 	c.Assume = append(c.Assume, "SHA-256 is collision resistant; QuorumSignature.ToBytes and the ordered participant ids determine what the delegated verifier checks")
 	c.Expect("C11.1", 12)
+	c.Expect("C11.6", 4)
 
 	check := p.Method("security/cert", "Cache", "check")
 	insert := p.Method("security/cert", "Cache", "insert")
@@ -167,6 +169,7 @@ func checkC11(c *Ctx) {
 			c.Check(len(bad) == 0, "C11.2", "Cache.Sign: remembers only own successful signatures", p.FuncPos(fn), "insert only after impl.Sign succeeded; the cache is not consulted for signing", join(bad))
 		}
 	}
+	c11Pairing(c)
 	// C11.3 Combine bypasses the cache
 	if comb := p.Method("security/cert", "Cache", "Combine"); comb != nil {
 		n := len(callsIn(comb, true, func(cc *ssa.CallCommon) bool { return calleeIs(cc, check) || calleeIs(cc, insert) }))
@@ -226,5 +229,95 @@ func checkC11(c *Ctx) {
 			}
 		})
 		c.Check(ok, "C11.5", "insert: entries[key] = accessOrder.PushFront(key)", p.FuncPos(insert), "a new key enters both structures together", "insert does not add the same key to both structures")
+	}
+}
+
+// c11Pairing (C11.6): the key writes the signer ids (Participants().ForEach) and then the
+// signature bytes (ToBytes) as two separate runs. For a Multi the i-th id and the i-th
+// signature belong together only if both runs enumerate the entries in the same order: the
+// order of the slice. If ids were enumerated in another order (say ascending) than the
+// bytes, entries [(2,B),(1,A)] and [(1,B),(2,A)] would share a key.
+func c11Pairing(c *Ctx) {
+	p := c.P
+	elemOfRange := regexp.MustCompile(`^invoke \(hs/security/crypto\.Signature\)\.(Signer|ToBytes)\(p0\[\((phi@b\d+i\d+) \+ c:1\)\]\)$`)
+	rangeIdx := func(fn *ssa.Function, phiKey string, k *Keyer) bool {
+		ok := false
+		eachInstr(fn, func(in ssa.Instruction) {
+			if ph, isPhi := in.(*ssa.Phi); isPhi && k.Key(ph) == phiKey && ph.Comment == "rangeindex" {
+				ok = true
+			}
+		})
+		return ok
+	}
+	for _, name := range []string{"ForEach", "RangeWhile"} {
+		fn := p.Method("security/crypto", "Multi", name)
+		if fn == nil {
+			c.Unresolved("C11.6", "Multi."+name, "anchor missing")
+			continue
+		}
+		k := NewKeyer(p, fn)
+		n, bad := 0, ""
+		eachInstr(fn, func(in ssa.Instruction) {
+			call, ok := in.(*ssa.Call)
+			if !ok || call.Call.IsInvoke() || call.Call.Value != fn.Params[1] {
+				return
+			}
+			n++
+			m := elemOfRange.FindStringSubmatch(k.Key(call.Call.Args[0]))
+			if m == nil || m[1] != "Signer" || !rangeIdx(fn, m[2], k) {
+				bad = "the callback receives " + k.Key(call.Call.Args[0]) + ", not the signer of the entry at the range position"
+			}
+		})
+		c.Check(n == 1 && bad == "", "C11.6", "Multi."+name+": ids are enumerated in slice order", p.FuncPos(fn),
+			"f(sig[i].Signer()) for i ascending over the receiver: the same order in which ToBytes concatenates the signatures, so id i and signature i of the cache key belong together",
+			map[bool]string{true: bad, false: "callback invocations found: " + itoa(n)}[bad != ""])
+	}
+	if fn := p.Method("security/crypto", "Multi", "ToBytes"); fn != nil {
+		k := NewKeyer(p, fn)
+		ok := false
+		for _, r := range returnsOf(fn) {
+			ph, isPhi := r.Results[0].(*ssa.Phi)
+			if !isPhi {
+				continue
+			}
+			for _, e := range ph.Edges {
+				call, isCall := e.(*ssa.Call)
+				if !isCall || len(call.Call.Args) != 2 || call.Call.Args[0] != ph {
+					continue
+				}
+				if b, isB := call.Call.Value.(*ssa.Builtin); !isB || b.Name() != "append" {
+					continue
+				}
+				m := elemOfRange.FindStringSubmatch(k.Key(call.Call.Args[1]))
+				if m != nil && m[1] == "ToBytes" && rangeIdx(fn, m[2], k) {
+					ok = true
+				}
+			}
+		}
+		c.Check(ok, "C11.6", "Multi.ToBytes: signatures are concatenated in slice order", p.FuncPos(fn),
+			"b = append(b, sig[i].ToBytes()...) for i ascending over the receiver", "ToBytes is not the concatenation of the entries in slice order")
+	} else {
+		c.Unresolved("C11.6", "Multi.ToBytes", "anchor missing")
+	}
+	if fn := p.Method("security/crypto", "Multi", "Participants"); fn != nil {
+		k := NewKeyer(p, fn)
+		ok := false
+		for _, r := range returnsOf(fn) {
+			v := r.Results[0]
+			for i := 0; i < 4; i++ {
+				switch x := v.(type) {
+				case *ssa.MakeInterface:
+					v = x.X
+				case *ssa.ChangeType:
+					v = x.X
+				}
+			}
+			if k.Key(v) == "p0" {
+				ok = true
+			}
+		}
+		c.Check(ok, "C11.6", "Multi.Participants: the id set is the multi-signature itself", p.FuncPos(fn), "returns the receiver", "Participants() is not the receiver")
+	} else {
+		c.Unresolved("C11.6", "Multi.Participants", "anchor missing")
 	}
 }
